@@ -58,7 +58,9 @@ example : (((Server.start true).run [.conn ⟨1, [], [], [], false⟩, .conn ⟨
 
 /-- C11.2 reopening and reconnecting a client never leaves an earlier socket open: after every history of
 reopen / close / virtual-tyme ticks / serviceConnect (any `connect_ex` result — in progress, refused, accepted —, any
-handshake response, the auto-reconnect retry tymer expiring before or after the connection was accepted), for every
+handshake response, the auto-reconnect retry tymer expiring before or after the connection was accepted) / transmit / full
+`service()` passes whose sends and receives get ANY kernel responses (data, graceful EOF `b''`, resets and other faults,
+would-block, partial sends — the C09 connection model composed in), for every
 `reconnectable` flag and tymeout, plain and TLS, the only socket the client still holds open is its current one -/
 theorem client_never_leaks (tls reconnectable : Bool) (tymeout : Nat) (ops : List COp) :
     (Cli.run (Cli.make tls reconnectable tymeout) ops).openIds = (Cli.run (Cli.make tls reconnectable tymeout) ops).cs.toList :=
@@ -74,6 +76,11 @@ theorem client_close_releases_all (tls reconnectable : Bool) (tymeout : Nat) (op
 every expiry of the retry tymer, and the abandoned ones are closed -/
 example : (Cli.run (Cli.make false true 8) [.reopen, .connect 115 none, .tick 8, .connect 114 none, .tick 8, .connect 114 none]).openIds = [2]
     ∧ (Cli.run (Cli.make false true 8) [.reopen, .connect 115 none, .tick 8, .connect 114 none, .tick 8, .connect 114 none]).nextSid = 3 := by
+  decide
+
+/-- the far side closes gracefully (EOF read, connection cut off), then the client reopens: the old socket is closed -/
+example : (Cli.run (Cli.make false false 0) [.connect 0 none, .feed [] [.data [1], .data []], .service 0 none]).io.cutoff = true ∧
+    (Cli.run (Cli.make false false 0) [.connect 0 none, .feed [] [.data [1], .data []], .service 0 none, .reopen]).openIds = [1] := by
   decide
 
 example : (Cli.run (Cli.make true false 0) [.reopen, .connect 0 (some (.fault 104)), .connect 111 none, .connect 0 (some .ok)]).openIds = [2] := by
